@@ -206,7 +206,7 @@ def main():
     e2.run_e2(res, cfg, srcs, inst_t, builder, group="trap", validate_every=1, tol=1e-6, exec_attrs={"force_solver": True},
               exec_opts={"solver": "nra", "timeout_ms": 60000 if T == "quick" else 600000}, time_budget=500 if T == "quick" else 4000)
     e2.run_e2(res, cfg, srcs, inst_b, builder, group="bell", validate_every=1, tol=1e-6, exec_attrs={"force_solver": True, "cut": cut},
-              exec_opts={"solver": "nra", "timeout_ms": 60000 if T == "quick" else 600000}, time_budget=500 if T == "quick" else 5000, droppable=True)
+              exec_opts={"solver": "nra", "timeout_ms": 60000 if T == "quick" else 300000}, time_budget=500 if T == "quick" else 2000, droppable=True)
     e2.finish_coverage(res, must_cover=["a_trajtrap_gen", "a_trajtrap_pos", "a_trajbell_gen", "a_trajbell_pos", "a_trajbell_jer"], report_funcs=None)
     return res.finish()
 
